@@ -24,7 +24,7 @@ META = {
                     "rejection loops bounded by a logical draw budget; exceeding it with natural draws is skipped (inconclusive for that case)"],
     "deciding": ["trace:placement", "trace:count-conservation", "trace:quantile", "determinism:seeded-rerun"],
 }
-META["added"] = 'Added: hostile legal-draw schedules, primitives on arrays up to 2000 bins, Fortran / transposed / strided tables and re-scaled forecasts, injected draws exactly on the lower cumulative boundary of distinct cells (0.0 for the first positive cell) for the binary and Brier simulators, weights bound (4(k+1)+2n) eps. single-precision rate tables, one injected row per simulation for the binary tests, array-valued scale factors.'
+META["added"] = 'Added: hostile legal-draw schedules, primitives on arrays up to 2000 bins, Fortran / transposed / strided tables and re-scaled forecasts, injected draws exactly on the lower cumulative boundary of distinct cells (0.0 for the first positive cell) for the binary and Brier simulators, weights bound (4(k+1)+2n) eps. single-precision rate tables, one injected row per simulation for the binary tests, array-valued scale factors. round-rate forecasts producing near-ties of simulated and observed scores.'
 MANIFEST = {
     "technique": "RNG boundary log + hostile legal-draw injection + simulator boundary log, offline inverse-CDF trace checker with exact comparisons; seeded re-run determinism with scrambled global RNG state",
     "level_text": "Every simulator call made by the 7 gridded tests on generated inputs is recorded (weights, draws, returned counts) and re-derived offline by exact comparison; hostile legal draws (0, every cumulative boundary +-1ulp, largest double below 1) are injected through the RNG boundary and through random_numbers=; count conservation, zero-rate exclusion, quantile identity and seed determinism (incl. seed 0, after scrambling the global RNG) are decided on the trace.",
@@ -333,7 +333,9 @@ def ex_case(ctx, case, test="CL", num_sim=3, source="seed", seed=1, layout="C", 
         with simlog.scrambled_global_rng((seed, test, "x")):
             ok2, res2, tb2 = ctx.call(fn, *build()[:2], **kw)
         ctx.mon("determinism:seeded-rerun", 1)
-        if ok2:
+        if not ok2:
+            ctx.violate("two runs with the same forecast, catalog and seed differ", rc, observed={"second_run_raised": repr(res2)}, tags=dict(tags, clause="determinism"))
+        else:
             td2 = numpy.asarray(res2.test_distribution, dtype=float)
             if not (numpy.array_equal(td, td2, equal_nan=True) and float(res2.quantile) == q and
                     (float(res2.observed_statistic) == obs or (math.isnan(obs) and math.isnan(float(res2.observed_statistic))))):
@@ -431,7 +433,9 @@ def ex_resample(ctx, sizes_seed, test="RM", seed=0, n_obs=6):
         cf2, obs2, _ = mk()
         ok2, res2, tb2 = ctx.call(fn, cf2, obs2, seed=seed)
     ctx.mon("determinism:seeded-rerun", 1)
-    if ok2 and not numpy.array_equal(td, numpy.asarray(res2.test_distribution, dtype=float), equal_nan=True):
+    if not ok2:
+        ctx.violate("two runs with the same forecast, catalog and seed differ", rc, observed={"second_run_raised": repr(res2)}, tags=dict(tags, clause="determinism"))
+    elif not numpy.array_equal(td, numpy.asarray(res2.test_distribution, dtype=float), equal_nan=True):
         ctx.violate("two runs with the same forecast, catalog and seed differ", rc, observed={"first": td[:4], "second": numpy.asarray(res2.test_distribution)[:4]},
                     tags=dict(tags, clause="determinism"))
     ctx.nt(digest(("resample", sizes_seed, test, seed)))
@@ -455,6 +459,18 @@ def run(ctx):
         if j % 40 == 0:
             ctx.sample({"cells": case["nx"] * case["ny"], "mags": case["nmag"], "n_events": len(case["ev_cell"]),
                         "zero_rate_bins": int((numpy.array(case["rates"]) == 0).sum()), "tests": PTESTS + BTESTS, "sources": ["seed", "inject", "hostile"]})
+    # forecasts built from a few round rate values and small catalogs: simulated catalogs are often permutations of the observed one among
+    # equal-rate bins, i.e. their scores tie the observed score mathematically but differ from it by an ulp or two in floating point -
+    # the quantile counts exactly the simulated statistics that do not exceed the observed one, as computed
+    for j in range((6000 if thorough else 48) // ctx.nshards):
+        r = ctx.rng("c06ties", j)
+        case = gridcases.gen_case(r, max_cells=6, max_mag=3, max_events=4, zero_frac=0.0, events_in_zero=False)
+        shp = numpy.array(case["rates"]).shape
+        case["rates"] = r.choice([0.3, 0.6, 0.9, 0.2, 0.1, 0.7], shp).tolist()
+        case["history"], case["layout"] = None, None
+        for t in ("CL", "L", "S", "M"):
+            ex_case(ctx, case, t, num_sim=int(r.choice([40, 80])), source="seed", seed=int(r.integers(0, 1000)))
+        ctx.add("near_tie_cases")
     # primitives with boundary draws on long arrays (float cumsum[-1]/sum below 1 is common beyond 8 elements)
     for j in range((60000 if thorough else 150) // ctx.nshards):
         r = ctx.rng("c06prim", j)
